@@ -115,3 +115,37 @@ pub proof fn lemma_eq_iff_same_function(f: BddPtr, g: BddPtr, o: VarOrder)
         lemma_canonical_unique(f, g, o);
     }
 }
+
+/// THEOREM (C07, last sentence: "the variables each sub-function actually depends on"): in an ordered canonical diagram every variable
+/// that is tested somewhere is a variable the denoted function depends on (witness environment returned); the converse is
+/// lemma_unmentioned.  So the structural recursion the count is proved to be (one Shannon step per node on a path: wmc_spec) steps
+/// through exactly the variables the sub-functions depend on.
+pub proof fn lemma_mentions_essential(p: BddPtr, o: VarOrder, x: VarLabel) -> (env: Env)
+    requires o.wf(), ordered(p, o), canon(p), mentions(p, x),
+    ensures ptr_sem(p, upd(env, x.0, true)) != ptr_sem(p, upd(env, x.0, false)),
+    decreases p,
+{
+    let n = node_of(p);
+    if n.var == x {
+        lemma_depends(p, o)
+    } else {
+        let (c, b) = if mentions(n.low, x) { (n.low, false) } else { (n.high, true) };
+        let e = lemma_mentions_essential(c, o, x);
+        let env = upd(e, n.var.0, b);
+        assert forall|v: bool| ptr_sem(p, upd(env, x.0, v)) == ((p is Compl) != ptr_sem(c, upd(e, x.0, v))) by {
+            let e1 = upd(env, x.0, v);
+            let e2 = upd(upd(e, x.0, v), n.var.0, b);
+            assert(e1 =~= e2);
+            assert(e1(n.var.0) == b);
+            lemma_indep(c, o, n.var, upd(e, x.0, v), b);
+        }
+        env
+    }
+}
+/// ... and conversely (any diagram): a variable that is not tested is not depended on
+pub proof fn lemma_essential_mentions(p: BddPtr, x: VarLabel, env: Env)
+    requires ptr_sem(p, upd(env, x.0, true)) != ptr_sem(p, upd(env, x.0, false)),
+    ensures mentions(p, x),
+{
+    if !mentions(p, x) { lemma_unmentioned(p, x, env, true); lemma_unmentioned(p, x, env, false); }
+}
